@@ -455,51 +455,80 @@ def Cmd.atomic : Cmd → Bool
   | .localCmd _ _ _ | .remoteCmd _ _ => false
   | _ => true
 
+/-- no remote login (through the terminal or directly at the session manager) anywhere in the command -/
+def Cmd.noLogin : Cmd → Bool
+  | .remoteLogin _ _ _ | .usmLogin _ _ _ => false
+  | .localCmd _ _ c | .remoteCmd _ c => c.noLogin
+  | _ => true
+
+/-- no file command anywhere in the command -/
+def Cmd.noFile : Cmd → Bool
+  | .file _ => false
+  | .localCmd _ _ c | .remoteCmd _ c => c.noFile
+  | _ => true
+
+/-- no local terminal command anywhere in the command -/
+def Cmd.noLocal : Cmd → Bool
+  | .localCmd _ _ _ => false
+  | .remoteCmd _ c => c.noLocal
+  | _ => true
+
+def Op.noLogin : Op → Bool
+  | .req _ c => c.noLogin
+  | _ => true
+
+def Op.noFile : Op → Bool
+  | .req _ c => c.noFile
+  | _ => true
+
 /-- the edits a relation has to tolerate so that every request keeps it -/
 structure Edits (R : Nat → Node → Node → Prop) : Prop where
   addUser : ∀ j a w, R j a (a.addUser w)
   setPassword : ∀ j a u p, R j a (a.setPassword u p)
   addConn : ∀ j a c, R j a (a.addConn c)
-  addSession : ∀ j a s, R j a (a.addSession s)
-  addFile : ∀ j a k, R j a (a.addFile k)
   touch : ∀ j a cid t, R j a (a.touch cid t)
 
 /-- every request (`Node.apply_request`, commands nested to any depth), for a relation that tolerates the edits of the model;
 `disable_user` and the local login are given at the level of the operation because several relations hold for them only
-under the operation's guards -/
+under the operation's guards; a new session / a new file has to be tolerated only if the command contains a login / a file
+command -/
 theorem Frame.exec (F : Frame R) (E : Edits R)
-    (hD : ∀ n y u, Net.Rel R n (opDisableUser n y u).1) (hL : ∀ n y u p, Net.Rel R n (localLogin n y u p).1) :
-    ∀ (c : Cmd) (n : Net) (y : Nat), Net.Rel R n (execCmd c n y).1 := by
+    (hD : ∀ n y u, Net.Rel R n (opDisableUser n y u).1) :
+    ∀ (c : Cmd), (c.noLocal = false → ∀ n y u p, Net.Rel R n (localLogin n y u p).1) → (c.noLogin = false → ∀ j a s, R j a (a.addSession s)) → (c.noFile = false → ∀ j a k, R j a (a.addFile k)) →
+      ∀ (n : Net) (y : Nat), Net.Rel R n (execCmd c n y).1 := by
   intro c
   induction c with
-  | file k => intro n y; exact F.toPre.file n y k (fun a => E.addFile y a k)
-  | addUser u p adm => intro n y; exact F.toPre.addUser n y u p adm (E.addUser y)
-  | disableUser u => intro n y; exact hD n y u
-  | changePassword u o nw => intro n y; exact F.changePassword n y u o nw (fun a => E.setPassword y a u nw)
+  | file k => intro _ _ hF n y; exact F.toPre.file n y k (fun a => hF rfl y a k)
+  | addUser u p adm => intro _ _ _ n y; exact F.toPre.addUser n y u p adm (E.addUser y)
+  | disableUser u => intro _ _ _ n y; exact hD n y u
+  | changePassword u o nw => intro _ _ _ n y; exact F.changePassword n y u o nw (fun a => E.setPassword y a u nw)
   | localCmd u p c ih =>
-    intro n y
+    intro hL hS hF n y
+    have hL' := hL rfl
     rcases opLocalCmdK_cases (fun m => execCmd c m y) n y u p with h0 | ⟨nd, _, _, ⟨_, h0⟩ | ⟨id, _, ⟨_, h0⟩ | ⟨_, h0⟩⟩⟩ <;>
       simp only [execCmd] <;> rw [h0]
     · exact F.rel_refl n
-    · exact hL n y u p
-    · exact F.rel_upd (hL n y u p) y _ (fun a => E.addConn y a _)
-    · exact F.rel_trans (F.rel_upd (hL n y u p) y _ (fun a => E.addConn y a _)) (ih _ _)
-  | remoteLogin z u p => intro n y; exact F.toPre.remoteLogin n y z u p (E.addSession z) E.addConn
-  | remoteCmd z c ih => intro n y; exact F.remoteCmdK _ n y z (E.touch z) (fun m => ih m z)
-  | remoteLogoff z => intro n y; exact F.remoteLogoff n y z
-  | usmLogin u p peer => intro n y; exact F.toPre.usmLogin n y u p peer (E.addSession y)
-  | usmLogout i => intro n y; exact F.usmLogout n y i
-  | svc w v => intro n y; exact F.ofData n _ _ (opSvc_cases n _ _ _)
-  | shutdown => intro n y; exact F.ofData n _ _ (opShutdown_cases n _)
-  | startup => intro n y; exact F.ofData n _ _ (opStartup_cases n _)
-  | reset => intro n y; exact F.ofData n _ _ (opReset_cases n _)
+    · exact hL' n y u p
+    · exact F.rel_upd (hL' n y u p) y _ (fun a => E.addConn y a _)
+    · exact F.rel_trans (F.rel_upd (hL' n y u p) y _ (fun a => E.addConn y a _)) (ih (fun _ => hL') hS hF _ _)
+  | remoteLogin z u p => intro _ hS _ n y; exact F.toPre.remoteLogin n y z u p (hS rfl z) E.addConn
+  | remoteCmd z c ih => intro hL hS hF n y; exact F.remoteCmdK _ n y z (E.touch z) (fun m => ih hL hS hF m z)
+  | remoteLogoff z => intro _ _ _ n y; exact F.remoteLogoff n y z
+  | usmLogin u p peer => intro _ hS _ n y; exact F.toPre.usmLogin n y u p peer (hS rfl y)
+  | usmLogout i => intro _ _ _ n y; exact F.usmLogout n y i
+  | svc w v => intro _ _ _ n y; exact F.ofData n _ _ (opSvc_cases n _ _ _)
+  | shutdown => intro _ _ _ n y; exact F.ofData n _ _ (opShutdown_cases n _)
+  | startup => intro _ _ _ n y; exact F.ofData n _ _ (opStartup_cases n _)
+  | reset => intro _ _ _ n y; exact F.ofData n _ _ (opReset_cases n _)
 
 /-- every operation -/
 theorem Frame.step (F : Frame R) (E : Edits R)
     (hD : ∀ n y u, Net.Rel R n (opDisableUser n y u).1) (hL : ∀ n y u p, Net.Rel R n (localLogin n y u p).1)
-    (hEn : ∀ j a u, R j a (a.setEnabled u)) (n : Net) (op : Op) : Net.Rel R n (Primaite.Session.step n op).1 := by
+    (hEn : ∀ j a u, R j a (a.setEnabled u)) (n : Net) (op : Op)
+    (hS : op.noLogin = false → ∀ j a s, R j a (a.addSession s)) (hF : op.noFile = false → ∀ j a k, R j a (a.addFile k)) :
+    Net.Rel R n (Primaite.Session.step n op).1 := by
   cases op with
-  | req y c => exact F.exec E hD hL c n y
+  | req y c => exact F.exec E hD c (fun _ => hL) hS hF n y
   | enableUser y u => exact F.toPre.enableUser n y u (fun a => hEn y a u)
   | localLogin y u p => simp only [Primaite.Session.step]; rw [opLocalLogin_fst]; exact hL n y u p
   | localLogout y => exact F.localLogout n y
@@ -507,12 +536,53 @@ theorem Frame.step (F : Frame R) (E : Edits R)
 
 /-- the common case: the relation tolerates `disabled := true` and a new local session unconditionally -/
 theorem Frame.step' (F : Frame R) (E : Edits R) (hD : ∀ j a u, R j a (a.setDisabled u)) (hL : ∀ j a l, R j a (a.setLoc l))
-    (hEn : ∀ j a u, R j a (a.setEnabled u)) (n : Net) (op : Op) : Net.Rel R n (Primaite.Session.step n op).1 :=
+    (hEn : ∀ j a u, R j a (a.setEnabled u)) (n : Net) (op : Op)
+    (hS : op.noLogin = false → ∀ j a s, R j a (a.addSession s)) (hF : op.noFile = false → ∀ j a k, R j a (a.addFile k)) :
+    Net.Rel R n (Primaite.Session.step n op).1 :=
   F.step E (fun n y u => F.toPre.disableUser n y u (fun a => hD y a u)) (fun n y u p => F.toPre.localLogin n y u p (hL y)) hEn n op
+    hS hF
 
-theorem Frame.exec' (F : Frame R) (E : Edits R) (hD : ∀ j a u, R j a (a.setDisabled u)) (hL : ∀ j a l, R j a (a.setLoc l))
-    (c : Cmd) (n : Net) (y : Nat) : Net.Rel R n (execCmd c n y).1 :=
-  F.exec E (fun n y u => F.toPre.disableUser n y u (fun a => hD y a u)) (fun n y u p => F.toPre.localLogin n y u p (hL y)) c n y
+/-! ### induction over nested commands for any transitive relation between networks -/
+
+/-- If a reflexive, transitive relation `P` between networks holds across every command that carries no further command,
+across everything that only tears sessions / connections down, across the bookkeeping of an accepted terminal command
+(`last_active_step`, the local login and its connection), then it holds across every request, nested to any depth. -/
+theorem exec_induction (P : Net → Net → Prop) (refl : ∀ n, P n n) (trans : ∀ a b c, P a b → P b c → P a c)
+    (hAtomic : ∀ c, c.atomic = true → ∀ n y, P n (execCmd c n y).1)
+    (hShr : ∀ n m, n.Shr m → P n m)
+    (hTouch : ∀ n y cid t, P n (n.upd y (Node.touch cid t)))
+    (hLogin : ∀ n y u p, P n (localLogin n y u p).1)
+    (hConn : ∀ n y c, P n (n.upd y (Node.addConn c))) :
+    ∀ (c : Cmd) (n : Net) (y : Nat), P n (execCmd c n y).1 := by
+  intro c
+  induction c with
+  | localCmd u p c ih =>
+    intro n y
+    rcases opLocalCmdK_cases (fun m => execCmd c m y) n y u p with h0 | ⟨nd, _, _, ⟨_, h0⟩ | ⟨id, _, ⟨_, h0⟩ | ⟨_, h0⟩⟩⟩ <;>
+      simp only [execCmd] <;> rw [h0]
+    · exact refl n
+    · exact hLogin n y u p
+    · exact trans _ _ _ (hLogin n y u p) (hConn _ _ _)
+    · exact trans _ _ _ (trans _ _ _ (hLogin n y u p) (hConn _ _ _)) (ih _ _)
+  | remoteCmd z c ih =>
+    intro n y
+    rcases opRemoteCmdK_cases (fun m => execCmd c m z) n y z with ⟨h0, _⟩ | ⟨a, b, cn, _, ⟨_, _, h0, _⟩ | ⟨_, h0, _⟩⟩ <;>
+      simp only [execCmd] <;> rw [h0]
+    · exact refl n
+    · exact trans _ _ _ (hTouch _ _ _ _) (ih _ _)
+    · exact hShr _ _ (shr_disconnect _ _ _ _)
+  | file k => exact hAtomic _ rfl
+  | addUser u p adm => exact hAtomic _ rfl
+  | disableUser u => exact hAtomic _ rfl
+  | changePassword u o nw => exact hAtomic _ rfl
+  | remoteLogin z u p => exact hAtomic _ rfl
+  | remoteLogoff z => exact hAtomic _ rfl
+  | usmLogin u p peer => exact hAtomic _ rfl
+  | usmLogout i => exact hAtomic _ rfl
+  | svc w v => exact hAtomic _ rfl
+  | shutdown => exact hAtomic _ rfl
+  | startup => exact hAtomic _ rfl
+  | reset => exact hAtomic _ rfl
 
 theorem Net.Rel.none {n m : Net} (h : Net.Rel R n m) {j : Nat} (hj : n.node j = none) : m.node j = none := by
   unfold Net.node at *
